@@ -20,6 +20,7 @@ import (
 	"flag"
 	"fmt"
 	"os"
+	"strconv"
 	"strings"
 
 	"verifharness/internal/prng"
@@ -107,10 +108,22 @@ func replay(path string) {
 		if l == "" || strings.HasPrefix(l, "#") {
 			continue
 		}
-		// what the SDK wrote in a recorded case cannot be re-executed from the line (it IS the
-		// output): rows and chain lines are handed to the reference decoder as recorded
-		if strings.HasPrefix(l, "case ") || strings.HasPrefix(l, "row ") || strings.HasPrefix(l, "chain ") {
-			fmt.Fprintln(out, l)
+		// a recorded SDK-writes case is REGENERATED from its `case <i> <seed>` line (every case has its
+		// own PRNG); the recorded rows / chain lines are skipped
+		if strings.HasPrefix(l, "case ") {
+			f := strings.Fields(l)
+			if len(f) == 3 {
+				i, e1 := strconv.Atoi(f[1])
+				b, e2 := strconv.ParseUint(f[2], 10, 64)
+				if e1 == nil && e2 == nil {
+					chainCase(b, i)
+					continue
+				}
+			}
+			emit(l, "bad-op")
+			continue
+		}
+		if strings.HasPrefix(l, "row ") || strings.HasPrefix(l, "chain ") {
 			continue
 		}
 		// answers / pass-2 lines of direction (b) are regenerated from their build request
